@@ -82,6 +82,8 @@ pub fn err_class(e: &std::io::Error) -> String {
     let msg = e.to_string();
     let cls = if msg.contains("Gap between chunks") {
         "gap"
+    } else if msg.contains("holds no complete record") {
+        "empty_chunk"
     } else if msg.contains("already locked") {
         "locked"
     } else if msg.contains("Vote cannot be reversed") {
